@@ -23,6 +23,11 @@ RULE = ('all 8x8x2x2 (server_max_window_bits, client_max_window_bits, '
         'range.  Non-trivial = Ready with compression and >= 2 compressed '
         'messages; distinct = distinct (parameters, peer variant, message '
         'layout) signatures')
+RULE += (' '
+         'Further families: `reconnect`, `pair` (two objects, usually the '
+         'same negotiated parameters, interleaved) and `threaded` '
+         '(ThreadSim: two or three threads sending compressed messages; '
+         "C11's scenarios and wire oracle).")
 SHRINK_LISTS = [('items',), ('items', '*', 'inner', '*'), ('sends',),
                 ('sends', '*', 'msgs'), ('cuts',), ('schedule', 'points')]
 EXPECTED_PROBES = ['takeover_backref_s2c', 'takeover_backref_c2s',
